@@ -114,6 +114,15 @@ def _r131(ctx: Ctx) -> None:
         ctx.ob('R13.1', site_of(mi, fn), f'{fname}(cls) registers cls under its own name in {reg}', ok,
                f'{fname}({sample}) added { {r: list(t) for r, t in added.items()} }; expected '
                f"{reg}['{sample}']", key=f'{fname}|key', facts={r: list(t) for r, t in added.items()})
+        # registering a class again under a name already taken (a class redefined in a notebook, a user class
+        # shadowing a built-in one) binds the name to the class just given
+        live2 = {r: dict() for r in bases}
+        live2[reg][sample] = 'class registered earlier under this name'
+        it2 = Interp(m, _HReg(live2))
+        guard('R13.1', mi, fn)(lambda: it2.explore(lambda: it2.call_closure(Closure(fn, mi), [cref], {}, fn)))
+        ctx.ob('R13.1', site_of(mi, fn), f'{fname}(cls) rebinds a name that is already registered', live2[reg].get(sample) is cref,
+               f"after {fname}({sample}) with {reg}['{sample}'] already present the name resolves to "
+               f'{live2[reg].get(sample)!r}, not to the class just registered', key=f'{fname}|rebind')
 
 
 # ------------------------------------------------------------------- R13.2
@@ -123,7 +132,7 @@ def _spec(form: str):
     codes = [{'L_x': 3, 'L_y': 5}, {'L_x': 4, 'L_y': 6}]
     noises = [{'r_x': 0.11}, {'r_x': 0.12}, {'r_x': 0.13}]
     decs = [{'osd_order': 21}, {'osd_order': 22}]
-    rates = [0.031, 0.032, 0.033, 0.034, 0.035]
+    rates = [0.0, 0.031, 0.032, 0.033, 0.034]          # the rate 0 is a legitimate (falsy) grid point
     if form == 'list-params':
         codes = [[3, 5], [4, 6]]
         noises = [[0.11, 0.21, 0.31], [0.12, 0.22, 0.32, 'XZZX'], [0.13, 0.23, 0.33, 'XY', {'deformation_axis': 'x'}]]
@@ -273,7 +282,8 @@ def _r132(ctx: Ctx) -> None:
     ):
         for pform in ('dict-params', 'list-params'):
             rng, want = _spec(pform)
-            o = sims_of(build(rng))
+            data = build(rng)
+            o = sims_of(data)
             mult = 2 if form == 'ranges list' else 1
             ok = o.kind == 'return' and isinstance(o.value, list)
             detail = f'{o!r}'
@@ -289,6 +299,17 @@ def _r132(ctx: Ctx) -> None:
             ctx.ob('R13.2', site_of(mi, fn_get), f'get_simulations: one simulation per product element ({form}, {pform})',
                    ok, detail, key=f'get_simulations|{form}|{pform}',
                    facts={'simulations': len(got) if got else 0})
+            if ok:
+                # the specification is not consumed by its own expansion: expanding the same object again (run, then
+                # reload; count, then run) gives the same simulations
+                o2 = sims_of(data)
+                ok2 = o2.kind == 'return' and isinstance(o2.value, list)
+                got2 = describe(o2.value)[0] if ok2 else None
+                ok2 = ok2 and sorted(map(repr, got2)) == sorted(map(repr, got))
+                ctx.ob('R13.2', site_of(mi, fn_get), f'get_simulations: a second expansion of the same specification object '
+                                                     f'gives the same simulations ({form}, {pform})', ok2,
+                       f'first expansion {len(got)} simulations, second {len(got2) if got2 is not None else o2!r}: the '
+                       f'expansion modified the specification it was given', key=f'get_simulations|again|{form}|{pform}')
     # explicit runs
     runs = [{'code': {'name': ('Toric2DCode', 'Planar2DCode', 'Toric2DCode')[i], 'parameters': {'L_x': 3 + (i == 2)}},
              'error_model': {'name': 'PauliErrorModel', 'parameters': {'r_x': 0.1 + i}},
